@@ -87,7 +87,9 @@ def run(ctx):
             # key / naive timestamp / out-of-range offset: the writer raises part-way through a record)
             n_hist += 1
             failed_write(r, rc.gen_new_batch(r))
-        out = rc.impl_write(rc.py_new_batch(nb), lead)
+        # ... nor on what follows the write position: every fourth batch goes into a reused / pre-sized buffer
+        stale = b"" if i % 4 != 1 else bytes(r.getrandbits(8) for _ in range(r.choice([5, 64, 5000])))
+        out = rc.impl_write(rc.py_new_batch(nb), lead, stale)
         wcases.append((nb, out))
         # the property on the implementation: an independent decoder recovers records and parameters
         if out[0] != "ok":
